@@ -292,7 +292,7 @@ theorem partial_warning_topic (w : World) (name : String) (v : View)
       exact absurd (hrule.1.1 rfl a ha) hne
     | got tm f2 =>
       obtain ⟨ts, m⟩ := tm
-      obtain ⟨t, ht⟩ := addAll_ok ts { name := name }
+      obtain ⟨t, ht⟩ := addAll_ok ts name (nsqdStats_clean w ps name "" false ts m f2 hs2)
       simp only [ht, Except.ok.injEq] at h
       subst h
       obtain ⟨hf, _⟩ := hrule.2 _ f2 rfl
@@ -391,7 +391,7 @@ theorem topic_view_is_sum (w : World) (name : String) (v : View)
     | allFailed => simp only [Except.ok.injEq] at h; subst h; simp at h200
     | got tm f2 =>
       obtain ⟨ts, m⟩ := tm
-      obtain ⟨t, ht⟩ := addAll_ok ts { name := name }
+      obtain ⟨t, ht⟩ := addAll_ok ts name (nsqdStats_clean w ps name "" false ts m f2 hs2)
       simp only [ht, Except.ok.injEq] at h
       subst h
       exact ⟨ps, f1, ts, m, f2, t, hs1, hs2, ht, rfl⟩
@@ -637,6 +637,46 @@ theorem latency_skip_only_repair_insufficient :
     add [none] [some 0] = .error (.nilMapWrite "E2eProcessingLatencyAggregate.Add p[i][\"max\"]") := rfl
 
 end Latency
+
+/-! ## A `nodes` member sent by the upstream (round 7, `fixes/F25`) -/
+
+/-- A channel object that carries `"nodes":[null]`. -/
+def junkChan : Chan :=
+  { name := "c1", cnt := {}, paused := false, clients := [], e2e := true, upNodes := [false] }
+def junkNsqd (addr host : String) (c : Chan) : Nsqd :=
+  { addr := addr, info := some { info0 with addr := addr, hostname := host, tcp := addr ++ ":4150" }, filters := true,
+    stats := some [some { name := "t1", cnt := {}, paused := false, e2e := true, channels := [some c] }] }
+/-- Two nsqds (hostnames `a` < `b`: list order = the order `sort.Sort(TopicStatsByHost)` gives) report
+`t1/c1`; the first one's channel object carries `"nodes":[null]`. -/
+def junkWorld : World :=
+  { lookupds := [], nsqdAddrs := ["N0", "N1"], nsqds := [junkNsqd "N0" "a" junkChan, junkNsqd "N1" "b" (chan0 true)] }
+
+/-- **Second finding of the sweep**, on the tree without F25: `TopicStats.Add` takes the first node's channel
+object — `NodeStats` decoded from the upstream included — as the aggregate; the second node's `ChannelStats.Add`
+appends to it and sorts: `ChannelStatsByHost.Less` dereferences the nil. In the handler: a 500 although every
+upstream answered. -/
+theorem topic_500_without_nodes_guard :
+    (match view { Fixes.all with clearNodes := false } junkWorld (.topic "t1") with
+     | .ok v => v.status
+     | .error _ => 0) = 500 := by decide
+
+theorem view_no_panic_false_without_nodes_guard :
+    ¬ view_no_panic_for { Fixes.all with clearNodes := false } := by
+  intro h
+  obtain ⟨v, hv, h500⟩ := h junkWorld (.topic "t1")
+  have := topic_500_without_nodes_guard
+  rw [hv] at this
+  exact h500 this
+
+example : (match view Fixes.all junkWorld (.topic "t1") with
+    | .ok v => v.status | .error _ => 0) = 200 := by decide
+/-- One reporter only: nothing is sorted, no 500 even without the guard. -/
+example : (match view { Fixes.all with clearNodes := false }
+      { junkWorld with nsqdAddrs := ["N0"] } (.topic "t1") with
+    | .ok v => v.status | .error _ => 0) = 200 := by decide
+/-- The channel map of GetNSQDStats (channel and counter views) starts from an aggregate nsqadmin creates. -/
+example : (match view { Fixes.all with clearNodes := false } junkWorld (.channel "t1" "c1") with
+    | .ok v => v.status | .error _ => 0) = 200 := by decide
 
 /-! ## fetch_terminates -/
 
